@@ -110,7 +110,20 @@ def trace {σ : Type} (tb : Tab) (C : CacheImpl σ Nat String) (view : σ → St
   let obs := if xs.isEmpty then "-" else " ".intercalate (xs.map (showRes tb))
   obs ++ "\t" ++ showContents tb (view s) (candidates tb rs)
 
-def runCache (tb : Tab) (kind : String) (rs : List (Req Nat String)) : String :=
+/-- cache kind grammar `<map|no|lruN>[+q][@http]`: `+q` (a parsed-document cache is configured) and `@http`
+(the history is carried over HTTP) do not exist in the model — the cache behind APQ is the prefix -/
+def baseKind (kind : String) : String :=
+  match ((kind.splitOn "@").headD "").splitOn "+" with
+  | b :: _ => b
+  | [] => ""
+
+/-- a request token `!/b/<fault>`: a body the transport cannot decode; it never reaches the extension -/
+def isFault (tok : String) : Bool := tok.startsWith "!/"
+
+def faultObs : String := "bad|x:-|-"
+
+def runCache (tb : Tab) (kind0 : String) (rs : List (Req Nat String)) : String :=
+  let kind := baseKind kind0
   if kind == "map" then trace tb mapCache mapView mapEmpty rs
   else if kind == "no" then trace tb noCache noView () rs
   else if kind.startsWith "lru" then
@@ -118,6 +131,28 @@ def runCache (tb : Tab) (kind : String) (rs : List (Req Nat String)) : String :=
     | some n => trace tb lruCache lruView (lruEmpty n) rs
     | none => "bad-cache"
   else "bad-cache"
+
+/-- put the fixed observation of a fault back at its position -/
+def weave : List String → List String → List String
+  | [], _ => []
+  | t :: ts, os =>
+    if isFault t then faultObs :: weave ts os
+    else match os with
+      | o :: os' => o :: weave ts os'
+      | [] => "?" :: weave ts []
+
+/-- positions (in the full history) of the requests that reach the extension, and whether every fault was
+observed as `bad`, executing nothing and touching no cache; `some i` = the first fault that was not -/
+def splitFaults : Nat → List String → List String → (List Nat × List String × List String × Option Nat)
+  | _, [], _ => ([], [], [], none)
+  | i, t :: ts, os =>
+    match os with
+    | [] => ([], [], [], some i)
+    | o :: os' =>
+      let (ix, rt, ro, bad) := splitFaults (i + 1) ts os'
+      if isFault t then
+        (ix, rt, ro, if o == faultObs then bad else some i)
+      else (i :: ix, t :: rt, o :: ro, bad)
 
 /-! ### spec evaluation on an observed trace -/
 
@@ -171,19 +206,26 @@ def chk (tb : Tab) (rest : String) : String :=
   match rest.splitOn "\t" with
   | [head, obs, cont] =>
     match head.splitOn " " with
-    | _kind :: toks =>
-      match parseReqs tb (" ".intercalate toks) with
+    | _kind :: toks0 =>
+      let toks0 := if toks0 == ["-"] then [] else toks0
+      let obs0 := if obs == "-" then [] else obs.splitOn " "
+      if toks0.length != obs0.length then "violates:length" else
+      let (ix, toks, obsl, badFault) := splitFaults 0 toks0 obs0
+      match parseReqs tb (if toks.isEmpty then "-" else " ".intercalate toks) with
       | none => "unparsable:reqs"
       | some rs =>
-        let os := if obs == "-" then .ok [] else (obs.splitOn " ").mapM (parseObs tb)
+        let os := obsl.mapM (parseObs tb)
         match os, parseContents tb cont with
         | .error t, _ => "unparsable:" ++ t
         | _, .error t => "unparsable:" ++ t
         | .ok os, .ok cs =>
           let H := hashOf tb
+          match badFault with
+          | some i => "violates:request-" ++ toString i
+          | none =>
           if specOk H rs os cs then "ok"
           else match firstBad H 0 [] rs os with
-            | some i => "violates:request-" ++ toString i
+            | some i => "violates:request-" ++ toString (ix.getD i i)
             | none => "violates:final-contents"
     | [] => "unparsable:head"
   | _ => "unparsable:fields"
@@ -198,9 +240,19 @@ def stepLine (tb : Tab) (line : String) : Tab × String :=
     | _ => (tb, "bad-tab")
   else if line.startsWith "run " then
     match (dropS line 4).splitOn " " with
-    | kind :: toks =>
+    | kind :: toks0 =>
+      let toks0 := if toks0 == ["-"] then [] else toks0
+      let toks := toks0.filter (fun t => !isFault t)
       match parseReqs tb (if toks.isEmpty then "-" else " ".intercalate toks) with
-      | some rs => (tb, runCache tb kind rs)
+      | some rs =>
+        if toks.length == toks0.length then (tb, runCache tb kind rs)
+        else
+          -- the model runs on the requests that reach the extension; a fault is answered `bad` and is a no-op
+          match (runCache tb kind rs).splitOn "\t" with
+          | [obs, cont] =>
+            let os := if obs == "-" then [] else obs.splitOn " "
+            (tb, " ".intercalate (weave toks0 os) ++ "\t" ++ cont)
+          | _ => (tb, "bad-run")
       | none => (tb, "bad-reqs")
     | [] => (tb, "bad-run")
   else if line.startsWith "chk " then (tb, chk tb (dropS line 4))
